@@ -636,3 +636,46 @@ def c16(ctx):
                      "are outside the quantifier (values acceptable at the target position)",
                      "below a link the entry order of maps is the codec's canonical order"],
         exhaustive=True)
+
+
+# --------------------------------------------------------------------------- DAG-JSON
+def dj_cfg(shard, nshards):
+    return """SPECIFICATION Spec
+CONSTANTS
+  Shard = %d
+  NShards = %d
+INVARIANTS RoundTripIffNotReserved OrderIndependent Emit
+CHECK_DEADLOCK FALSE
+""" % (shard, nshards)
+
+
+@prop("C04")
+def c04(ctx):
+    quick = ctx.tier == "quick"
+    nsh = 8
+    jobs, files = [], []
+    for sh in range(nsh):
+        f = os.path.join(ctx.scratch, "dj-%d.ndjson" % sh)
+        files.append(f)
+        jobs.append(dict(module="DagJsonEnc", cfg=dj_cfg(sh, nsh), capture=f, workers=1, heap="3g", timeout=2400))
+    ctx.tlc_parallel(jobs, max_procs=8)
+    allf = os.path.join(ctx.scratch, "dj-all.ndjson")
+    with open(allf, "w") as out:
+        for f in files:
+            out.write(open(f).read())
+            os.remove(f)
+    args = ["jsonenc", "-in", allf, "-seed", str(ctx.seed), "-orders", "120" if quick else "1000"]
+    ctx.absorb(ctx.vh_run(args, timeout=3000), args, label="jsonenc")
+    return ctx.finish(
+        "model_checking",
+        rule="one initial state per value of the bounded domain (int64 boundaries on both signs, floats by class: "
+             "fractional, integral, +-0, 1e20, 1e21, 1e-6, 1e-7, max, subnormal, 2^53; strings and keys with quotes, "
+             "backslash, control characters, U+2028, non-BMP, '/', 'bytes'; bytes of every base64 padding class; every CID "
+             "shape; nesting <= 3; the reserved shapes and their neighbours); TLC checks DecJ(EncJ(v)) = Sorted(v) <=> "
+             "not Reserved(v) and order independence; each non-reserved value is encoded under every insertion order in 4 "
+             "node implementations (bytes must be identical), tokenised with encoding/json and compared with the specified "
+             "token sequence, and decoded back (kinds must be preserved); non-trivial = more than one token; distinct = "
+             "distinct values",
+        assumptions=["lexical forms (number formatting, escapes, base64, CID strings) are judged through independent Go "
+                     "oracles: encoding/json tokenizer, encoding/base64, math/big, strconv"],
+        exhaustive=True)
